@@ -4,6 +4,8 @@ import (
 	"fmt"
 	"math/rand/v2"
 	"strconv"
+	"strings"
+	"sync"
 	"time"
 
 	"verifharness/proc"
@@ -26,6 +28,11 @@ type spec struct {
 	AlterTo string `json:"alter_to"`
 	Coin    bool   `json:"coin"`
 	Lazy    bool   `json:"lazy"`
+	// storm: expiry instants of the scenarios of one server are staggered by this many ms
+	// so that, whatever the phase of the 1 s retention ticker, some shard expires just
+	// before a cycle starts while large writes into it are in flight
+	StaggerMs int `json:"stagger_ms"`
+	Batch     int `json:"batch_rows"`
 }
 
 type durSeg struct {
@@ -87,7 +94,12 @@ func groupOf(t int64, S time.Duration) (int64, int64) {
 	return gs.UnixNano(), gs.Add(S).UnixNano()
 }
 
-func durStr(d time.Duration) string { return strconv.FormatInt(int64(d/time.Second), 10) + "s" }
+func durStr(d time.Duration) string {
+	if d%time.Second != 0 {
+		return strconv.FormatInt(int64(d/time.Millisecond), 10) + "ms"
+	}
+	return strconv.FormatInt(int64(d/time.Second), 10) + "s"
+}
 
 func (sc *scen) addSeg(d time.Duration, lo, hi time.Time, stmt string) {
 	sc.segs = append(sc.segs, durSeg{D: d, Lo: lo, Hi: hi, Stmt: stmt})
@@ -256,7 +268,7 @@ func (sc *scen) setup(unlimited bool) bool {
 	var d time.Duration
 	if !unlimited {
 		x := sc.T0.Add(time.Duration(sc.Spec.Delta) * time.Second).UnixNano()
-		d = time.Duration((x-sc.ge+sec-1)/sec) * time.Second
+		d = time.Duration((x-sc.ge+sec-1)/sec)*time.Second + time.Duration(sc.Spec.StaggerMs)*time.Millisecond
 	}
 	if !sc.createDB(d) {
 		return false
@@ -327,6 +339,19 @@ func (sc *scen) run() {
 		}
 		if sc.waitGone(sc.p1, time.Until(x)+60*time.Second, false) {
 			sc.observeFor(4 * time.Second)
+			sc.finishBarrier()
+		}
+	case "storm":
+		if !sc.setup(false) {
+			sc.w.stormX <- time.Time{}
+			return
+		}
+		x := sc.xOf(sc.p1, sc.curD())
+		sc.w.stormX <- x
+		sc.observeUntil(x.Add(-4 * time.Second))
+		sc.storm(x)
+		if sc.waitGone(sc.p1, time.Until(x)+60*time.Second, false) {
+			sc.observeFor(3 * time.Second)
 			sc.finishBarrier()
 		}
 	case "far":
@@ -457,6 +482,48 @@ func (sc *scen) run() {
 	}
 }
 
+// storm sends large batches into the expiring group (every row still inside the
+// retention window when the batch is sent, the last ones by nanoseconds) from several
+// connections until 1.5 s after the expiry instant. Only the first row of each
+// acknowledged batch enters the model.
+func (sc *scen) storm(x time.Time) {
+	var sb strings.Builder
+	for j := 0; j < sc.Spec.Batch; j++ {
+		fmt.Fprintf(&sb, "m,k=a v=%di %d\n", j, sc.ge-1-int64(j))
+	}
+	body := sb.String()
+	var mu sync.Mutex
+	var wg sync.WaitGroup
+	stopAt := x.Add(1500 * time.Millisecond)
+	for g := 0; g < 3; g++ {
+		wg.Add(1)
+		go func() {
+			defer wg.Done()
+			for i := 0; i < 5000 && clk().Before(stopAt); i++ {
+				w0 := clk()
+				r := sc.w.srv.Write(sc.db, body, vals("rp", "rp1"))
+				w1 := clk()
+				mu.Lock()
+				switch {
+				case r.Acked():
+					gs, ge := groupOf(sc.ge-1, sc.S)
+					sc.points = append(sc.points, &point{Role: "storm", RP: "rp1", T: sc.ge - 1, GS: gs, GE: ge, W0: w0, W1: w1, ids: map[uint64]bool{}, dirIDs: map[uint64]bool{}})
+					sc.w.c.Count("storm:batches-acked", 1)
+				case r.Err != nil:
+					sc.w.c.Count("storm:batches-transport-error", 1)
+				default:
+					sc.w.c.Count(fmt.Sprintf("storm:batches-status-%d", r.Status), 1)
+					if sc.refused["storm"]++; sc.refused["storm"] <= 3 {
+						sc.note("storm batch: %d %.160q", r.Status, r.Body)
+					}
+				}
+				mu.Unlock()
+			}
+		}()
+	}
+	wg.Wait()
+}
+
 // phase1 of a lazy scenario: create, write, establish visibility; the server is then
 // restarted with lazy loading so that the shards of old groups are not opened.
 func (sc *scen) phase1() {
@@ -580,7 +647,7 @@ func pickP2(rng *rand.Rand) int64 {
 }
 
 // genSpecs derives the scenario list of one round from the seed.
-func genSpecs(rng *rand.Rand, thorough bool, round int) (a, b []spec) {
+func genSpecs(rng *rand.Rand, thorough bool, round int) (a, b, st []spec) {
 	mk := func(kind string, delta int) spec {
 		sp := spec{Kind: kind, Delta: delta, Coin: rng.IntN(2) == 0}
 		sp.P1Class, sp.P1Off = pickP1(rng, delta, time.Hour)
@@ -647,8 +714,17 @@ func genSpecs(rng *rand.Rand, thorough bool, round int) (a, b []spec) {
 	for i := range a {
 		a[i].ID = i
 	}
+	nst := 12
+	for i := 0; i < nst; i++ {
+		sp := mk("storm", 30)
+		sp.P1Class, sp.P1Off = "last-ns", 1
+		sp.StaggerMs = i * 1000 / nst
+		sp.Batch = 4000
+		sp.ID = 200 + i
+		st = append(st, sp)
+	}
 	for i := range b {
 		b[i].ID = 100 + i
 	}
-	return a, b
+	return a, b, st
 }
